@@ -220,7 +220,7 @@ def run_unit(unit_dir, repo, work, tier='quick', prop=None):
             names.add(o)
     res['named_obligations'] = sorted(names)
     res['obligations'] = sum(len(r['obl']) for r in results)
-    res['discharged'] = sum(1 for r in results for o, st in r['obl'].items() if st == 'SUCCESS' and r['status'] == 'holds')
+    res['discharged'] = sum(1 for r in results for o, st in r['obl'].items() if st == 'SUCCESS' and r['status'] in ('holds', 'violation'))
     viol = [r for r in results if r['status'] == 'violation']
     und = [r for r in results if r['status'] == 'undecided']
     if viol:
